@@ -11,6 +11,10 @@ CHECKS = {
          TECH + "; oracle = per-connection reference model (refredis) + exact reply count"),
  "C02": ("fault_enumeration", "For fault-free base runs, one re-run per step of the active window with a backend reset / close / crash / host removal / host replacement / service stop injected before that step (same schedule prefix), plus random multi-fault runs with site-triggered faults at the upstream client's send, write, read and drain sites and a deep-queue class; oracle: no panic, never more replies than requests, and every request on a still-open connection answered within 10 simulated minutes after the last fault, judged in a fully drained final state.", "4.C02",
          TECH + "; systematic fault-point enumeration over the steps of base schedules"),
+ "C03": ("exploration", "Seeded exploration of command programs (about 60 modelled string/key/hash/list/set/sorted-set commands plus opaque-mode commands) over 1-4 connections, binary-unsafe values up to 64 KiB (4 MiB in the thorough tier), routing-corpus keys covering brace placements and random bytes, and random slot layouts over 1-8 masters. Sequential programs are compared reply by reply with one reference Redis holding all data; concurrent programs are checked per key for linearizability with per-connection program order (porcupine); node logs must show zero redirections and exactly the clients' argument bytes.", "4.C03",
+         TECH + "; differential testing against a reference model and linearizability checking (porcupine) of recorded histories"),
+ "C07": ("exploration", "Seeded exploration of fault sequences (backend reset/close at any step, crash then restart on the same address, refused or timed-out first connect, re-sharding including emptying a master) around a steady request stream; after the last fault, with every backend reachable and the proxy quiescent, probe rounds read every node's keys: they must be answered correctly (no error), errors are admitted only for requests invoked before the heal point, and a second probe round at least one simulated minute later must cause no redirection.", "4.C07",
+         TECH + "; bounded-liveness probes after faults stop"),
 }
 NA = {
 }
